@@ -35,6 +35,13 @@ def one(mid, checks, workers):
     try:
         a = sh(["git", "-C", wt, "apply", os.path.join(SEEDED, mid, "patch.diff")])
         if a.returncode != 0:
+            # written against an earlier /repo head (a later fix: commit touched the same lines): evaluate it on the head it was confirmed on
+            base = json.load(open(os.path.join(SEEDED, mid, "meta.json"))).get("confirmed_by", {}).get("repo_head")
+            if base:
+                sh(["git", "-C", wt, "checkout", "--detach", base])
+                a = sh(["git", "-C", wt, "apply", os.path.join(SEEDED, mid, "patch.diff")])
+                out["_base"] = base
+        if a.returncode != 0:
             return mid, {"error": "patch does not apply: " + a.stderr[-200:]}
         env = dict(os.environ, VERIF_REPO_SRC=wt + "/src", VERIF_WORKERS=str(workers), VERIF_EVIDENCE_DIR="/dev/shm/mx-evidence-%s" % mid,
                    VERIF_REPLAY_DIR="/dev/shm/mx-replays-%s" % mid)
@@ -72,7 +79,7 @@ def main():
     with cf.ThreadPoolExecutor(jobs) as ex:
         for mid, out in ex.map(lambda m: one(m, checks, workers), ids):
             mx.setdefault(mid, {}).update(out)
-            print(mid, {c: v.get("exit") if isinstance(v, dict) else v for c, v in out.items()})
+            print(mid, {c: v.get("exit") if isinstance(v, dict) else v for c, v in out.items() if c != "error" or True})
             sys.stdout.flush()
             json.dump(mx, open(path, "w"), indent=1, sort_keys=True)
 
